@@ -47,7 +47,10 @@ pub fn p_ym(ym: &PlainYearMonth) -> Value {
 
 pub fn exec(op: &str, a: &Value) -> Option<Value> {
     Some(match op {
-        "PlainDate.with" => run(|| arg_date(&a["recv"])?.with(partial_date(&a["p"])?, arg_ovf(a)), p_date),
+        "PlainDate.with" => run(|| { let mut p = partial_date(&a["p"])?;
+            // a receiver in a calendar with eras: era and eraYear supplied next to the record's other fields
+            if let Some(e) = js::opt_s(a, "era") { p = p.with_era(Some(e.parse().expect("HARNESS: era code"))).with_era_year(Some(js::i(a, "eraYear") as i32)); }
+            arg_date(&a["recv"])?.with(p, arg_ovf(a)) }, p_date),
         "PlainDate.from_partial" => run(|| PlainDate::from_partial(partial_date(&a["p"])?, arg_ovf(a)), p_date),
         "PlainDate.new_with_overflow" => run(|| PlainDate::new_with_overflow(js::i(a, "y") as i32, js::i(a, "m") as u8, js::i(a, "d") as u8, iso(), ovf_req(a)), p_date),
         "PlainTime.with" => run(|| arg_time(&a["recv"])?.with(partial_time(&a["p"]), arg_ovf(a)), p_time),
